@@ -9,7 +9,7 @@ from engine.api import conc, concrete, harness, pick
 from oracles.snapshot import identities, snap
 from oracles.util import RH, TF
 
-N_SHAPE = 10
+N_SHAPE = 11
 
 
 class TFn:
@@ -46,6 +46,8 @@ def shape(k: int, s: str = "&t\""):
         return Tag("head", Tag("meta", name=s), dep)
     if k == 8:
         return TagList(Tag("html", Tag("body", s)), Tag("p", s))
+    if k == 10:
+        return TagList(s, "plain", 3)
     return Tag("span", s, 5, [None, [s, Tag("br")]], _add_ws=False)
 
 
@@ -118,7 +120,7 @@ def _pure_body(k: int, op1: int, op2: int) -> bool:
 
 @harness("C08", pre=lambda B, k, op1, op2: 0 <= k < N_SHAPE and 0 <= op1 < N_OP and 0 <= op2 < N_OP,
          shard={"k": range(N_SHAPE), "op1": range(N_OP)},
-         sel=["k: 10 tree shapes (dependencies, HTML(), nested tags, html/body/head roots, tagifiable and self-rendering objects, head_content, nested lists)",
+         sel=["k: 11 tree shapes (dependencies, HTML(), nested tags, html/body/head roots, tagifiable and self-rendering objects, head_content, nested lists)",
               "op1, op2: ordered pair from 15 read-only operations (tagify, render, str, repr, _repr_html_, get_html_string, get_dependencies, copy.copy, "
               "HTMLDocument.render with html attributes, with lib_prefix=None, as_html_tags, as_dict, source_path_map, serialize_to_script_json, ==)"],
          targets=["htmltools._core.Tag.tagify", "htmltools._core.TagList.tagify", "htmltools._core.HTMLDocument._gen_html_tag_tree",
@@ -146,6 +148,13 @@ N_MUT = 8
 
 def mutate(m: int, t) -> None:
     """one mutation through the public API"""
+    if not isinstance(t, Tag) and not [c for c in t if isinstance(c, Tag)]:
+        # a list without tags: mutate the list itself
+        if m % 2 == 0:
+            t.append("added")
+        else:
+            t.insert(0, Tag("hr"))
+        return
     root = t if isinstance(t, Tag) else [c for c in t if isinstance(c, Tag)][0]
     nested = [c for c in root.children if isinstance(c, Tag)]
     inner = nested[0] if nested else root
